@@ -15,7 +15,16 @@
     * `chain_L2`         — the chain (induction over a suffix of `cfg.chain`);
     * `outer_marker_run` — a real delimiter run covers single-character look-ahead tokens;
     * `nested_step`      — one iteration of the loop keeps `NF`;
-    * `nested_eq`        — the induction on fuel.
+    * `nested_eq`        — the induction on fuel (`nested_tokEq`: the same in the `TokEqAt` shape of
+                           `Lemmas/MemoSafeLamTop.lean`).
+
+  Nothing is OPEN here.  NOTE on `B` (the code-span cache invariant): the witness `Just` gives `B` for
+  the state the look-ahead step started from, and nothing says the witness's `skip_token` preserves `B`,
+  so `B` of the INTERMEDIATE witness states (behind a declining look-ahead link / image call, which ran
+  `skip_token`) is not available in general.  It is only needed at a backtick (`BackL2`), where the
+  link / image rules decline on the first character and every other flat look-ahead rule returns the
+  state it was given (`wit_back`); at any other character the code-span rule declines with the state
+  unchanged in both modes (`backticks_other`) and `BackL2` is not used.
 -/
 import MdIt.Lemmas.MemoSafeLamNF
 import MdIt.Lemmas.MemoSafeLamWalk
@@ -1327,5 +1336,47 @@ theorem nested_tokEq (H : NestHyps cfg B src Mtop) (f : Nat) (s : IState)
     fun _ => ((nested_eq H f s hnf).2 s' h).2⟩⟩
 
 end
+
+/-! ## examples
+
+`NF` is an invariant of a RUN (its `JustAll` component quantifies over the look-ahead steps that made the
+memo), so the examples check the CONCLUSION of `nested_eq` on the nested frame a real run enters, and
+show that it fails for a frame entered with a crossing memo entry (where `NF.outer` is false). -/
+
+/-- the nested frame `[1, 7)` of the outer link of `[[a](b)](c)`, as the real link rule enters it: the
+    look-ahead of the top frame left the memo `2 ↦ 3`, `1 ↦ 7` -/
+def exNested : IState :=
+  { src := "[[a](b)](c)".toList, srcmap := [(0, 0)], pos := 1, posMax := 7, level := 1, linkLevel := 1,
+    cache := [(1, 7), (2, 3)], backticks := CodePair.Cache.empty, children := [], bottoms := [] }
+
+-- guarded run = model run on the nested frame (same memo, same end, one child: the inner link), and
+-- the memo is left alone although the frame contains a link whose rule calls `parse_link` again
+example :
+    (tokLoopG (entryCfg 100) true 20 exNested.posMax exNested).toOption.map
+        (fun s => (s.cache, s.pos, s.children.length)) = some ([(1, 7), (2, 3)], 7, 1) ∧
+    (tokLoop (entryCfg 100) 20 exNested.posMax exNested).toOption.map
+        (fun s => (s.cache, s.pos, s.children.length)) = some ([(1, 7), (2, 3)], 7, 1) := by
+  decide +kernel
+
+/-- `0` a value, `1` out of fuel / guard, `2` a Rust panic -/
+def outcome : Except Panic IState → Nat
+  | .ok _ => 0
+  | .error .fuel => 1
+  | .error (.rust _) => 2
+
+/-- the label frame `[3, 7)` of the finding `witness_panics` (`Props/InlineTotal.lean`; incoherent chain:
+    an emphasis pair on the backtick in front of the code-span rule), entered with the crossing entry
+    `6 ↦ 13`: no label walk over this memo finds the frame end (`NF.outer` fails), the guard trips, the
+    model panics — the conclusion of `nested_eq` is false there -/
+example :
+    outcome (tokLoopG { exCfg 100 with chain := [.emph '`' true, .backticks, .link] } true 20 7
+      { src := "[`[a`[`](u) `".toList, srcmap := [(0, 0)], pos := 3, posMax := 7, level := 1,
+        linkLevel := 1, cache := [(6, 13)], backticks := CodePair.Cache.empty, children := [],
+        bottoms := [] }) = 1 ∧
+    outcome (tokLoop { exCfg 100 with chain := [.emph '`' true, .backticks, .link] } 20 7
+      { src := "[`[a`[`](u) `".toList, srcmap := [(0, 0)], pos := 3, posMax := 7, level := 1,
+        linkLevel := 1, cache := [(6, 13)], backticks := CodePair.Cache.empty, children := [],
+        bottoms := [] }) = 2 := by
+  decide +kernel
 
 end MdIt.Inline
